@@ -99,7 +99,13 @@ func check(c Case) evid.Outcome {
 }
 
 func gen(t *rapid.T) Case {
-	switch rapid.IntRange(0, 5).Draw(t, "kind") {
+	switch rapid.IntRange(0, 6).Draw(t, "kind") {
+	case 6:
+		// long runs before / inside / after a javascript: spelling (magic-length defects)
+		w := strs.CaseVariant(t, "javascript:") + "alert(1)"
+		cut := rapid.IntRange(0, len("javascript:")).Draw(t, "cut")
+		pre := rapid.SampledFrom([]string{"", "", " ", "\x00"}).Draw(t, "pre")
+		return Case{evid.BStr(pre + w[:cut] + strs.Pad().Draw(t, "pad") + w[cut:])}
 	case 0, 1:
 		return Case{evid.BStr(strs.Hostile(8, dict).Draw(t, "s"))}
 	case 2, 3:
